@@ -497,6 +497,291 @@ theorem dropSubscription_print_parse (fuel : Nat) (s : PState) (name db rp k : S
   rw [P.run_bind _ _ s4 rp s5 h5]
   rfl
 
+/-! ### CREATE USER, SET PASSWORD
+
+The printed form carries `[REDACTED]` in place of the password literal; as the property oracle
+does, the theorems are about the text with `QuoteString(password)` put back in that place. -/
+
+/-- ` WITH ALL PRIVILEGES` for an admin. -/
+def adminText (admin : Bool) : Str :=
+  if admin then ' ' :: (Token.WITH.str ++ ' ' :: (Token.ALL.str ++ ' ' :: Token.PRIVILEGES.str)) else []
+
+/-- What CREATE USER prints after its keywords, with `pwPiece` where the password goes. -/
+def createUserText (name pwPiece : Str) (admin : Bool) : Str :=
+  ' ' :: (qi name ++ ' ' :: (Token.WITH.str ++ ' ' :: (Token.PASSWORD.str ++ ' ' :: (pwPiece ++ adminText admin))))
+
+theorem createUser_print (name pw : Str) (admin : Bool) :
+    (Statement.createUser name pw admin).print = tx "CREATE USER" ++ createUserText name (tx "[REDACTED]") admin := by
+  have p1 : (Statement.createUser name pw admin).print =
+      tx "CREATE USER " ++ qi name ++ tx " WITH PASSWORD [REDACTED]" ++
+        (if admin then tx " WITH ALL PRIVILEGES" else []) := rfl
+  have e1 : tx "CREATE USER " = tx "CREATE USER" ++ [' '] := by decide +kernel
+  have e2 : tx " WITH PASSWORD [REDACTED]" =
+      ' ' :: (Token.WITH.str ++ ' ' :: (Token.PASSWORD.str ++ ' ' :: tx "[REDACTED]")) := by decide +kernel
+  have e3 : tx " WITH ALL PRIVILEGES" =
+      ' ' :: (Token.WITH.str ++ ' ' :: (Token.ALL.str ++ ' ' :: Token.PRIVILEGES.str)) := by decide +kernel
+  rw [p1, e1, e2, e3]
+  cases admin <;>
+    simp [createUserText, adminText, List.append_assoc, List.cons_append, List.nil_append]
+
+/-- **Print → parse, CREATE USER name WITH PASSWORD 'pw' [WITH ALL PRIVILEGES]** (password literal
+put back). Without the admin clause the handler ends by looking one token ahead for `WITH`. -/
+theorem createUser_print_parse (fuel : Nat) (s : PState) (name pw : Str) (admin : Bool) (k : Str)
+    (hex1 : Expressible name) (hex2 : Expressible pw) (hk : admin = true → WordEnd k)
+    (hs : s.Before (createUserText name (quoteString pw) admin ++ k)) :
+    ∃ sK, sK.Before k ∧
+      Returns (runHandler fuel .parseCreateUserStatement) s (.createUser name pw admin) sK (!admin) [.WITH] := by
+  have e : createUserText name (quoteString pw) admin ++ k = ' ' :: (qi name ++ ' ' :: (Token.WITH.str ++
+      ' ' :: (Token.PASSWORD.str ++ ' ' :: (quoteString pw ++ (adminText admin ++ k))))) := by
+    simp only [createUserText, List.append_assoc, List.cons_append]
+  rw [e] at hs
+  obtain ⟨s1, h1, b1⟩ := parseIdent_piece s [' '] (qi name) _ name Gap.blank hs
+    (scansAs_ident name _ hex1 (.of_wordEnd (WordEnd.blank _)))
+  obtain ⟨s2, h2, b2⟩ := parseTokens_cons_piece s1 [' '] Token.WITH.str _ .WITH [.PASSWORD] [] Gap.blank b1
+    (scansAs_kw .WITH _ (by decide +kernel) (WordEnd.blank _))
+  obtain ⟨s3, h3, b3⟩ := parseTokens_cons_piece s2 [' '] Token.PASSWORD.str _ .PASSWORD [] [] Gap.blank b2
+    (scansAs_kw .PASSWORD _ (by decide +kernel) (WordEnd.blank _))
+  have h23 : (parseTokens [.WITH, .PASSWORD]).run s1 = .ok ((), s3) := by rw [h2, h3]; rfl
+  obtain ⟨s4, h4, b4⟩ := parseString_piece s3 [' '] (quoteString pw) _ pw Gap.blank b3 (scansAs_string pw _ hex2)
+  simp only [runHandler, parseCreateUser]
+  cases admin with
+  | false =>
+    refine ⟨s4, by simpa [adminText] using b4, ?_⟩
+    unfold Returns
+    rw [if_pos (by simp)]
+    intro lx s' hp hne
+    rw [P.run_bind _ _ s name s1 h1, P.run_bind _ _ s1 () s3 h23, P.run_bind _ _ s3 pw s4 h4,
+      P.run_bind _ _ s4 false s' (optTok_absent .WITH hp (by simpa using hne))]
+    rfl
+  | true =>
+    simp only [adminText, if_true, List.append_assoc, List.cons_append] at b4
+    obtain ⟨s5, h5, b5⟩ := optTok_piece s4 [' '] Token.WITH.str _ .WITH [] Gap.blank b4
+      (scansAs_kw .WITH _ (by decide +kernel) (WordEnd.blank _))
+    obtain ⟨s6, h6, b6⟩ := parseTokens_cons_piece s5 [' '] Token.ALL.str _ .ALL [.PRIVILEGES] [] Gap.blank b5
+      (scansAs_kw .ALL _ (by decide +kernel) (WordEnd.blank _))
+    obtain ⟨s7, h7, b7⟩ := parseTokens_cons_piece s6 [' '] Token.PRIVILEGES.str k .PRIVILEGES [] [] Gap.blank b6
+      (scansAs_kw .PRIVILEGES _ (by decide +kernel) (hk rfl))
+    have h67 : (parseTokens [.ALL, .PRIVILEGES]).run s5 = .ok ((), s7) := by rw [h6, h7]; rfl
+    refine ⟨s7, b7, Returns.exact ?_⟩
+    rw [P.run_bind _ _ s name s1 h1, P.run_bind _ _ s1 () s3 h23, P.run_bind _ _ s3 pw s4 h4,
+      P.run_bind _ _ s4 true s5 h5]
+    simp only [if_true]
+    rw [P.run_bind _ _ s5 () s7 h67]
+    rfl
+
+/-- What SET PASSWORD prints after `SET PASSWORD FOR`, with `pwPiece` where the password goes. -/
+def setPasswordText (name pwPiece : Str) : Str := ' ' :: (qi name ++ ' ' :: '=' :: ' ' :: pwPiece)
+
+theorem setPassword_print (name pw : Str) :
+    (Statement.setPasswordUser pw name).print = tx "SET PASSWORD FOR" ++ setPasswordText name (tx "[REDACTED]") := by
+  have p1 : (Statement.setPasswordUser pw name).print = tx "SET PASSWORD FOR " ++ qi name ++ tx " = [REDACTED]" := rfl
+  have e1 : tx "SET PASSWORD FOR " = tx "SET PASSWORD FOR" ++ [' '] := by decide +kernel
+  have e2 : tx " = [REDACTED]" = ' ' :: '=' :: ' ' :: tx "[REDACTED]" := by decide +kernel
+  rw [p1, e1, e2]
+  simp only [setPasswordText, List.append_assoc, List.cons_append, List.nil_append]
+
+/-- **Print → parse, SET PASSWORD FOR name = 'pw'** (password literal put back). -/
+theorem setPassword_print_parse (fuel : Nat) (s : PState) (name pw k : Str)
+    (hex1 : Expressible name) (hex2 : Expressible pw)
+    (hs : s.Before (setPasswordText name (quoteString pw) ++ k)) :
+    ∃ s', (runHandler fuel .parseSetPasswordUserStatement).run s = .ok (.setPasswordUser pw name, s') ∧
+      s'.Before k := by
+  have e : setPasswordText name (quoteString pw) ++ k = ' ' :: (qi name ++ ' ' :: ('=' :: ' ' :: (quoteString pw ++ k))) := by
+    simp only [setPasswordText, List.append_assoc, List.cons_append]
+  rw [e] at hs
+  obtain ⟨s1, h1, b1⟩ := parseIdent_piece s [' '] (qi name) _ name Gap.blank hs
+    (scansAs_ident name _ hex1 (.of_wordEnd (WordEnd.blank _)))
+  obtain ⟨s2, h2, b2⟩ := expectTok_piece s1 [' '] ['='] _ .EQ [] ["="] Gap.blank b1
+    (scansAs_eq _ (by intro t h; cases h))
+  obtain ⟨s3, h3, b3⟩ := parseString_piece s2 [' '] (quoteString pw) k pw Gap.blank b2 (scansAs_string pw k hex2)
+  refine ⟨s3, ?_, b3⟩
+  simp only [runHandler, parseSetPasswordUser]
+  rw [P.run_bind _ _ s name s1 h1, P.run_bind _ _ s1 () s2 h2, P.run_bind _ _ s2 pw s3 h3]
+  rfl
+
+/-! ### GRANT, REVOKE -/
+
+/-- `Privilege.String()` in pieces. -/
+def privText : Privilege → Str
+  | .none => Privilege.print .none
+  | .read => Token.READ.str
+  | .write => Token.WRITE.str
+  | .all => Token.ALL.str ++ ' ' :: Token.PRIVILEGES.str
+
+theorem privilege_print (p : Privilege) : p.print = privText p := by
+  cases p
+  · rfl
+  · show tx "READ" = _; decide +kernel
+  · show tx "WRITE" = _; decide +kernel
+  · show tx "ALL PRIVILEGES" = _; decide +kernel
+
+/-- `parsePrivilege` on a printed privilege (`NO PRIVILEGES` is never produced by the parser). -/
+theorem parsePrivilege_print (s : PState) (p : Privilege) (k : Str) (hp : p ≠ .none) (hk : WordEnd k)
+    (hs : s.Before (' ' :: (privText p ++ k))) :
+    ∃ s', parsePrivilege.run s = .ok (p, s') ∧ s'.Before k := by
+  cases p with
+  | none => exact absurd rfl hp
+  | read =>
+    obtain ⟨lx, s1, h1, t1, _, b1⟩ := scanIW_piece s [' '] Token.READ.str k .READ [] Gap.blank hs
+      (scansAs_kw .READ k (by decide +kernel) hk)
+    refine ⟨s1, ?_, b1⟩
+    unfold parsePrivilege
+    rw [P.run_bind _ _ s lx s1 h1]
+    simp only [t1]
+    rfl
+  | write =>
+    obtain ⟨lx, s1, h1, t1, _, b1⟩ := scanIW_piece s [' '] Token.WRITE.str k .WRITE [] Gap.blank hs
+      (scansAs_kw .WRITE k (by decide +kernel) hk)
+    refine ⟨s1, ?_, b1⟩
+    unfold parsePrivilege
+    rw [P.run_bind _ _ s lx s1 h1]
+    simp only [t1]
+    rfl
+  | all =>
+    have e : ' ' :: (privText .all ++ k) = ' ' :: (Token.ALL.str ++ ' ' :: (Token.PRIVILEGES.str ++ k)) := by
+      show ' ' :: ((Token.ALL.str ++ ' ' :: Token.PRIVILEGES.str) ++ k) = _
+      simp only [List.append_assoc, List.cons_append]
+    rw [e] at hs
+    obtain ⟨lx, s1, h1, t1, _, b1⟩ := scanIW_piece s [' '] Token.ALL.str _ .ALL [] Gap.blank hs
+      (scansAs_kw .ALL _ (by decide +kernel) (WordEnd.blank _))
+    obtain ⟨lx2, s2, h2, t2, _, b2⟩ := scanIW_piece s1 [' '] Token.PRIVILEGES.str k .PRIVILEGES [] Gap.blank b1
+      (scansAs_kw .PRIVILEGES k (by decide +kernel) hk)
+    refine ⟨s2, ?_, b2⟩
+    unfold parsePrivilege
+    rw [P.run_bind _ _ s lx s1 h1]
+    simp only [t1]
+    rw [P.run_bind _ _ s1 lx2 s2 h2]
+    simp only [t2, ne_eq, not_true_eq_false, if_false]
+    rfl
+
+/-- What GRANT prints after the keyword: `<privilege> ON <db> TO <user>`. -/
+def grantText (p : Privilege) (on user : Str) : Str :=
+  ' ' :: (privText p ++ ' ' :: (Token.ON.str ++ ' ' :: (qi on ++ ' ' :: (Token.TO.str ++ ' ' :: qi user))))
+
+/-- What `GRANT ALL PRIVILEGES TO <user>` prints after the keyword. -/
+def grantAdminText (user : Str) : Str :=
+  ' ' :: (privText .all ++ ' ' :: (Token.TO.str ++ ' ' :: qi user))
+
+theorem grant_print (p : Privilege) (on user : Str) :
+    (Statement.grant p on user).print = tx "GRANT" ++ grantText p on user ∧
+    (Statement.grantAdmin user).print = tx "GRANT" ++ grantAdminText user := by
+  have p1 : (Statement.grant p on user).print =
+      tx "GRANT " ++ p.print ++ tx " ON " ++ qi on ++ tx " TO " ++ qi user := rfl
+  have p2 : (Statement.grantAdmin user).print = tx "GRANT ALL PRIVILEGES TO " ++ qi user := rfl
+  have e1 : tx "GRANT " = tx "GRANT" ++ [' '] := by decide +kernel
+  have e2 : tx " TO " = ' ' :: (Token.TO.str ++ [' ']) := by decide +kernel
+  have e3 : tx "GRANT ALL PRIVILEGES TO " =
+      tx "GRANT" ++ ' ' :: (privText .all ++ ' ' :: (Token.TO.str ++ [' '])) := by decide +kernel
+  rw [p1, p2, e1, e2, e3, tx_on, privilege_print]
+  simp only [grantText, grantAdminText, List.append_assoc, List.cons_append, List.nil_append, and_self]
+
+/-- **Print → parse, GRANT <privilege> ON <db> TO <user>** (every privilege the parser can
+produce: READ, WRITE, ALL PRIVILEGES). -/
+theorem grant_print_parse (fuel : Nat) (s : PState) (p : Privilege) (on user k : Str) (hp : p ≠ .none)
+    (hex1 : Expressible on) (hex2 : Expressible user) (hk : IdentEnd user k)
+    (hs : s.Before (grantText p on user ++ k)) :
+    ∃ s', (runHandler fuel .parseGrantStatement).run s = .ok (.grant p on user, s') ∧ s'.Before k := by
+  have e : grantText p on user ++ k = ' ' :: (privText p ++
+      ' ' :: (Token.ON.str ++ ' ' :: (qi on ++ ' ' :: (Token.TO.str ++ ' ' :: (qi user ++ k))))) := by
+    simp only [grantText, List.append_assoc, List.cons_append]
+  rw [e] at hs
+  obtain ⟨s1, h1, b1⟩ := parsePrivilege_print s p _ hp (WordEnd.blank _) hs
+  obtain ⟨lx, s2, h2, t2, _, b2⟩ := scanIW_piece s1 [' '] Token.ON.str _ .ON [] Gap.blank b1
+    (scansAs_kw .ON _ (by decide +kernel) (WordEnd.blank _))
+  obtain ⟨s3, h3, b3⟩ := parseIdent_piece s2 [' '] (qi on) _ on Gap.blank b2
+    (scansAs_ident on _ hex1 (.of_wordEnd (WordEnd.blank _)))
+  obtain ⟨s4, h4, b4⟩ := expectTok_piece s3 [' '] Token.TO.str _ .TO [] ["TO"] Gap.blank b3
+    (scansAs_kw .TO _ (by decide +kernel) (WordEnd.blank _))
+  obtain ⟨s5, h5, b5⟩ := parseIdent_piece s4 [' '] (qi user) k user Gap.blank b4 (scansAs_ident user k hex2 hk)
+  refine ⟨s5, ?_, b5⟩
+  simp only [runHandler, parseGrant]
+  rw [P.run_bind _ _ s p s1 h1, P.run_bind _ _ s1 lx s2 h2]
+  simp only [t2, if_true]
+  rw [P.run_bind _ _ s2 on s3 h3, P.run_bind _ _ s3 () s4 h4, P.run_bind _ _ s4 user s5 h5]
+  rfl
+
+/-- **Print → parse, GRANT ALL PRIVILEGES TO <user>.** -/
+theorem grantAdmin_print_parse (fuel : Nat) (s : PState) (user k : Str)
+    (hex : Expressible user) (hk : IdentEnd user k) (hs : s.Before (grantAdminText user ++ k)) :
+    ∃ s', (runHandler fuel .parseGrantStatement).run s = .ok (.grantAdmin user, s') ∧ s'.Before k := by
+  have e : grantAdminText user ++ k = ' ' :: (privText .all ++ ' ' :: (Token.TO.str ++ ' ' :: (qi user ++ k))) := by
+    simp only [grantAdminText, List.append_assoc, List.cons_append]
+  rw [e] at hs
+  obtain ⟨s1, h1, b1⟩ := parsePrivilege_print s .all _ (by decide) (WordEnd.blank _) hs
+  obtain ⟨lx, s2, h2, t2, _, b2⟩ := scanIW_piece s1 [' '] Token.TO.str _ .TO [] Gap.blank b1
+    (scansAs_kw .TO _ (by decide +kernel) (WordEnd.blank _))
+  obtain ⟨s3, h3, b3⟩ := parseIdent_piece s2 [' '] (qi user) k user Gap.blank b2 (scansAs_ident user k hex hk)
+  refine ⟨s3, ?_, b3⟩
+  simp only [runHandler, parseGrant]
+  rw [P.run_bind _ _ s .all s1 h1, P.run_bind _ _ s1 lx s2 h2]
+  simp only [t2, reduceCtorEq, if_false, if_true, ne_eq, not_true_eq_false]
+  rw [P.run_bind _ _ s2 user s3 h3]
+  rfl
+
+/-- What REVOKE prints after the keyword: `<privilege> ON <db> FROM <user>`. -/
+def revokeText (p : Privilege) (on user : Str) : Str :=
+  ' ' :: (privText p ++ ' ' :: (Token.ON.str ++ ' ' :: (qi on ++ ' ' :: (Token.FROM.str ++ ' ' :: qi user))))
+
+/-- What `REVOKE ALL PRIVILEGES FROM <user>` prints after the keyword. -/
+def revokeAdminText (user : Str) : Str :=
+  ' ' :: (privText .all ++ ' ' :: (Token.FROM.str ++ ' ' :: qi user))
+
+theorem revoke_print (p : Privilege) (on user : Str) :
+    (Statement.revoke p on user).print = tx "REVOKE" ++ revokeText p on user ∧
+    (Statement.revokeAdmin user).print = tx "REVOKE" ++ revokeAdminText user := by
+  have p1 : (Statement.revoke p on user).print =
+      tx "REVOKE " ++ p.print ++ tx " ON " ++ qi on ++ tx " FROM " ++ qi user := rfl
+  have p2 : (Statement.revokeAdmin user).print = tx "REVOKE ALL PRIVILEGES FROM " ++ qi user := rfl
+  have e1 : tx "REVOKE " = tx "REVOKE" ++ [' '] := by decide +kernel
+  have e2 : tx " FROM " = ' ' :: (Token.FROM.str ++ [' ']) := by decide +kernel
+  have e3 : tx "REVOKE ALL PRIVILEGES FROM " =
+      tx "REVOKE" ++ ' ' :: (privText .all ++ ' ' :: (Token.FROM.str ++ [' '])) := by decide +kernel
+  rw [p1, p2, e1, e2, e3, tx_on, privilege_print]
+  simp only [revokeText, revokeAdminText, List.append_assoc, List.cons_append, List.nil_append, and_self]
+
+/-- **Print → parse, REVOKE <privilege> ON <db> FROM <user>** (every privilege the parser can
+produce: READ, WRITE, ALL PRIVILEGES). -/
+theorem revoke_print_parse (fuel : Nat) (s : PState) (p : Privilege) (on user k : Str) (hp : p ≠ .none)
+    (hex1 : Expressible on) (hex2 : Expressible user) (hk : IdentEnd user k)
+    (hs : s.Before (revokeText p on user ++ k)) :
+    ∃ s', (runHandler fuel .parseRevokeStatement).run s = .ok (.revoke p on user, s') ∧ s'.Before k := by
+  have e : revokeText p on user ++ k = ' ' :: (privText p ++
+      ' ' :: (Token.ON.str ++ ' ' :: (qi on ++ ' ' :: (Token.FROM.str ++ ' ' :: (qi user ++ k))))) := by
+    simp only [revokeText, List.append_assoc, List.cons_append]
+  rw [e] at hs
+  obtain ⟨s1, h1, b1⟩ := parsePrivilege_print s p _ hp (WordEnd.blank _) hs
+  obtain ⟨lx, s2, h2, t2, _, b2⟩ := scanIW_piece s1 [' '] Token.ON.str _ .ON [] Gap.blank b1
+    (scansAs_kw .ON _ (by decide +kernel) (WordEnd.blank _))
+  obtain ⟨s3, h3, b3⟩ := parseIdent_piece s2 [' '] (qi on) _ on Gap.blank b2
+    (scansAs_ident on _ hex1 (.of_wordEnd (WordEnd.blank _)))
+  obtain ⟨s4, h4, b4⟩ := expectTok_piece s3 [' '] Token.FROM.str _ .FROM [] ["FROM"] Gap.blank b3
+    (scansAs_kw .FROM _ (by decide +kernel) (WordEnd.blank _))
+  obtain ⟨s5, h5, b5⟩ := parseIdent_piece s4 [' '] (qi user) k user Gap.blank b4 (scansAs_ident user k hex2 hk)
+  refine ⟨s5, ?_, b5⟩
+  simp only [runHandler, parseRevoke]
+  rw [P.run_bind _ _ s p s1 h1, P.run_bind _ _ s1 lx s2 h2]
+  simp only [t2, if_true]
+  rw [P.run_bind _ _ s2 on s3 h3, P.run_bind _ _ s3 () s4 h4, P.run_bind _ _ s4 user s5 h5]
+  rfl
+
+/-- **Print → parse, REVOKE ALL PRIVILEGES FROM <user>.** -/
+theorem revokeAdmin_print_parse (fuel : Nat) (s : PState) (user k : Str)
+    (hex : Expressible user) (hk : IdentEnd user k) (hs : s.Before (revokeAdminText user ++ k)) :
+    ∃ s', (runHandler fuel .parseRevokeStatement).run s = .ok (.revokeAdmin user, s') ∧ s'.Before k := by
+  have e : revokeAdminText user ++ k = ' ' :: (privText .all ++ ' ' :: (Token.FROM.str ++ ' ' :: (qi user ++ k))) := by
+    simp only [revokeAdminText, List.append_assoc, List.cons_append]
+  rw [e] at hs
+  obtain ⟨s1, h1, b1⟩ := parsePrivilege_print s .all _ (by decide) (WordEnd.blank _) hs
+  obtain ⟨lx, s2, h2, t2, _, b2⟩ := scanIW_piece s1 [' '] Token.FROM.str _ .FROM [] Gap.blank b1
+    (scansAs_kw .FROM _ (by decide +kernel) (WordEnd.blank _))
+  obtain ⟨s3, h3, b3⟩ := parseIdent_piece s2 [' '] (qi user) k user Gap.blank b2 (scansAs_ident user k hex hk)
+  refine ⟨s3, ?_, b3⟩
+  simp only [runHandler, parseRevoke]
+  rw [P.run_bind _ _ s .all s1 h1, P.run_bind _ _ s1 lx s2 h2]
+  simp only [t2, reduceCtorEq, if_false, if_true, ne_eq, not_true_eq_false]
+  rw [P.run_bind _ _ s2 user s3 h3]
+  rfl
+
 /-! ## passwords -/
 
 /-- The printed form of `CREATE USER` / `SET PASSWORD` does not depend on the password. -/
